@@ -65,6 +65,17 @@ func c11EvalWrite(c *Ctx, cs Case) {
 	if fault != "" {
 		rec.faultK, rec.kind = faultK, fault
 	}
+	// "@real": an efivars directory that exists on the machine's own filesystem while the library is given an
+	// in-memory afero.Fs - the write may touch the file in the filesystem it was given and nothing else
+	realDir := ""
+	if dir == "@real" {
+		d, derr := os.MkdirTemp("", "vcheck-c11-efivars-")
+		if derr != nil {
+			return
+		}
+		defer os.RemoveAll(d)
+		realDir, dir = d, d
+	}
 	oldDir := attributes.Efivars
 	attributes.Efivars = dir
 	defer func() { attributes.Efivars = oldDir }()
@@ -94,6 +105,11 @@ func c11EvalWrite(c *Ctx, cs Case) {
 	if pan {
 		fail("writing a variable panicked: "+msg, "")
 		return
+	}
+	if realDir != "" {
+		if ents, _ := os.ReadDir(realDir); len(ents) > 0 {
+			c.Fail(Failure{Kind: "property", Matcher: "c11.real_fs_touched", What: "the write touched something else: a file " + ents[0].Name() + " was created in the directory of that name on the machine's own filesystem, outside the filesystem the library was given (" + api + " API)", Case: cs, Go: clip(c11ShortLog(log)), Spec: "nothing outside the afero.Fs"})
+		}
 	}
 	if err != nil && fault == "" {
 		fail("writing a variable failed on a healthy filesystem: "+err.Error(), "")
@@ -549,6 +565,9 @@ func c11Gen(c *Ctx) {
 		k := vk[i%len(vk)]
 		for _, api := range []string{"object", "legacy"} {
 			c11EvalWrite(c, Case{"op": "write", "api": api, "class": k, "dir": dirs[i%len(dirs)], "name": hx([]byte(d.name)), "guid": hx(wireGUID(d.guid)), "attrs": int64(d.attrs), "value": hx(values[k])})
+			if i%8 == 1 {
+				c11EvalWrite(c, Case{"op": "write", "api": api, "class": k + "/real-dir", "dir": "@real", "name": hx([]byte(d.name)), "guid": hx(wireGUID(d.guid)), "attrs": int64(d.attrs), "value": hx(values[k])})
+			}
 		}
 		// the same write on a filesystem that fails or shortens one call: still at most one write,
 		// and the failure is reported
@@ -751,7 +770,7 @@ func c11Gen(c *Ctx) {
 func init() {
 	register("C11", &PropDef{
 		Rule:   "every predefined efivar.Efivar (25, each also with APPEND_WRITE added) and random (name, GUID, attribute) definitions x values {empty, boolean, UTF-16 string, signature database, raw} x three efivars directories x the object API (EFIFS over FSWrapper.SetFS) and the legacy attributes.* API (fs.SetFS), on a recording afero.Fs, healthy and with one failing or short call (OpenFile error, Write error, Write one byte short, Write of zero bytes, Close error); reads with stored masks {equal, superset, subset, disjoint} and absent / 0..3-byte files, with a probe value that records whether decoding was attempted. The legacy by-name API (attributes.WriteEfivars / ReadEfivars, which derives the vendor GUID from the name): every predefined definition under the global or image-security-database GUID, the four database names db/dbx/dbt/dbr, and suffix / truncation / case variations of all of them (not database names unless they coincide with one), written (also with APPEND_WRITE and with the faults) and read (also through ReadEfivarsWithGuid) against the file <Name>-<GUID of the definition>. Value sizes: buffers of 2^k-1, 2^k, 2^k+1 bytes (k = 9, 12, 13, 16; thorough also 15) and SHA-256 databases of 100 / 400 / 1000 (thorough 3000) entries through every API, healthy and faulted, and read back. Held results: sequences of 2..8 (thorough ..20) reads and writes of 1..4 variables (values of 0..2000 bytes that grow, shrink and repeat; masks equal / superset / lacking a required attribute; absent and short files) through ONE EFIFS / FSWrapper and the one legacy filesystem, every read through one of GetVar and GetVarWithAttributes (with an Unmarshallable that keeps the bytes it is handed, without copying), FSWrapper.ReadEfivarsWithGuid, FSWrapper.ReadEfivarsFile and attributes.ReadEfivarsWithGuid (the returned *bytes.Buffer is kept): each read is compared with the bytes the file holds at that moment and with the Lean model, and every value handed out by an earlier read is compared again after every later read and write (of another variable, or of the same one after a new write) and must still be the value that was read. Every case is non-trivial; distinct = distinct cases.",
-		Assume: []string{"variable names contain no '/' and the efivars directory is a clean absolute path (path.Join would otherwise rewrite them)", "the legacy writer additionally probes the immutable flag of the same path on the real OS filesystem (attr.IsImmutable); that probe is outside the recorded afero.Fs and is noted, not checked"},
+		Assume: []string{"variable names contain no '/' and the efivars directory is a clean absolute path (path.Join would otherwise rewrite them)", "with a filesystem other than the in-memory one the legacy writer additionally probes the immutable flag of the same path on the operating system's filesystem (attr.IsImmutable, which opens with O_CREATE); with the operating system's own filesystem that is the file being written. With the in-memory filesystem nothing outside it may be touched: the real-dir cases check that against a directory that exists on the machine (F34)"},
 		Eval:   c11Eval, Gen: c11Gen,
 	})
 }
